@@ -3,6 +3,8 @@ C16 — max-min allocations are fair.  Theorems about the model lean/SgVerif/Lmm
 (invariants: lean/SgVerif/Lmm/Lemmas.lean, lean/SgVerif/Lmm/Fair.lean); ∀ well-formed systems, ∀ fuel, ∀ initial values.
 -/
 import SgVerif.Lmm.Fair
+import SgVerif.Lmm.Unique
+import SgVerif.Lmm.SpecLemmas
 import SgVerif.C15.Props
 namespace SgVerif.C16
 open SgVerif.Lmm
@@ -131,6 +133,92 @@ example : (maxminSolve exSh 0 5 (fun _ => 0)).map (fun st => (st.value 0, st.val
 
 example : ∀ c ∈ exSh.active, (exSh.cnst c).fatpipe = false := by
   intro c hc; simp [exSh] at hc; rcases hc with rfl | rfl <;> simp [exSh]
+
+theorem exSh_wf : WF exSh := by
+  constructor
+  · decide
+  · intro c hc; simp [exSh] at hc; rcases hc with rfl | rfl <;> simp [exSh]
+  · intro c hc e he; simp [exSh] at hc
+    rcases hc with rfl | rfl <;> simp [exSh] at he
+    · rcases he with rfl | rfl | rfl <;> simp [exSh]
+    · subst he; simp [exSh]
+  · intro c hc e he; simp [exSh] at hc
+    rcases hc with rfl | rfl <;> simp [exSh] at he
+    · rcases he with rfl | rfl | rfl <;> norm_num
+    · subst he; norm_num
+  · intro v e he
+    by_cases h0 : v = 0
+    · subst h0; simp [exSh] at he; subst he; norm_num
+    · by_cases h1 : v = 1
+      · subst h1; simp [exSh] at he; subst he; norm_num
+      · by_cases h2 : v = 2
+        · subst h2; simp [exSh] at he; rcases he with rfl | rfl <;> norm_num
+        · simp [exSh, h0, h1, h2] at he
+  · intro c hc v hp
+    simp [exSh] at hc
+    by_cases h0 : v = 0
+    · subst h0; rcases hc with rfl | rfl <;> simp [exSh, wOf, sumBy]
+    · by_cases h1 : v = 1
+      · subst h1; rcases hc with rfl | rfl <;> simp [exSh, wOf, sumBy]
+      · by_cases h2 : v = 2
+        · subst h2; rcases hc with rfl | rfl <;> simp [exSh, wOf, sumBy]
+        · simp [exSh, h0, h1, h2] at hp
+
+theorem exSh_wfv : WFV exSh := by
+  constructor
+  · intro c hc e he; simp [exSh] at hc
+    rcases hc with rfl | rfl <;> simp [exSh] at he
+    · rcases he with rfl | rfl | rfl <;> simp [exSh]
+    · subst he; simp [exSh]
+  · intro c hc e he; simp [exSh] at hc
+    rcases hc with rfl | rfl <;> simp [exSh] at he
+    · rcases he with rfl | rfl | rfl <;> simp [exSh]
+    · subst he; simp [exSh]
+
+/-! ### uniqueness; the model computes the reference allocation -/
+
+/-- what `maxmin_solve` returns is a weighted max-min fair allocation in the sense of `FairAlloc` (capacities, variable
+bounds, bottleneck condition) — every well-formed system -/
+theorem maxmin_fair (S : Sys) (hwf : WF S) (val0 : Nat → Rat) (fuel : Nat) (st : St)
+    (h : maxminSolve S 0 fuel val0 = some st) : FairAlloc S st.value := by
+  have hf := C15.maxmin_feasible S hwf val0 fuel st h
+  exact ⟨hf.1, fun c hc e he _ hb => (hf.2.1 c hc e he).2 hb, maxmin_bottleneck S hwf val0 fuel st h⟩
+
+/-- **C16 `maxmin_unique_shared`, full strength (variable bounds allowed).**  On a well-formed system whose active
+constraints are all summing (SHARED): (1) the allocation returned by `maxmin_solve` is weighted max-min fair;
+(2) it is the *unique* one: every allocation `y` that respects the capacities and the variable bounds and satisfies the
+bottleneck condition gives every consumer the same rate; (3) it equals the water-filling reference `Spec.alloc`
+(an independent 60-line definition, Lmm/Spec.lean) on every consumer. -/
+theorem maxmin_unique_shared (S : Sys) (hwf : WF S) (hwv : WFV S) (hsh : ∀ c ∈ S.active, (S.cnst c).fatpipe = false)
+    (val0 : Nat → Rat) (fuel : Nat) (st : St) (h : maxminSolve S 0 fuel val0 = some st) :
+    FairAlloc S st.value ∧
+    (∀ y, FairAlloc S y → ∀ c ∈ S.active, ∀ e ∈ (S.cnst c).elems, 0 < e.2 → y e.1 = st.value e.1) ∧
+    (∀ c ∈ S.active, ∀ e ∈ (S.cnst c).elems, 0 < e.2 → st.value e.1 = Spec.alloc S e.1) := by
+  have hm := maxmin_fair S hwf val0 fuel st h
+  refine ⟨hm, fun y hy => fairAlloc_unique S hwf hsh y st.value hy hm, ?_⟩
+  exact fairAlloc_unique S hwf hsh st.value (Spec.alloc S) hm (Spec.alloc_fair S hwf hwv hsh)
+
+/-- (2) alone does not need the `variable_set` facts `WFV` -/
+theorem maxmin_unique_shared_wf (S : Sys) (hwf : WF S) (hsh : ∀ c ∈ S.active, (S.cnst c).fatpipe = false)
+    (val0 : Nat → Rat) (fuel : Nat) (st : St) (h : maxminSolve S 0 fuel val0 = some st) :
+    ∀ y, FairAlloc S y → ∀ c ∈ S.active, ∀ e ∈ (S.cnst c).elems, 0 < e.2 → y e.1 = st.value e.1 :=
+  fun y hy => fairAlloc_unique S hwf hsh y st.value hy (maxmin_fair S hwf val0 fuel st h)
+
+/-- with termination (`C15.maxmin_terminates`): the solver returns, and returns the reference allocation -/
+theorem maxmin_total_eq_spec (S : Sys) (hwf : WF S) (hwv : WFV S) (hsh : ∀ c ∈ S.active, (S.cnst c).fatpipe = false)
+    (nv : Nat) (hnv : ∀ c ∈ S.active, ∀ e ∈ (S.cnst c).elems, e.1 < nv) (val0 : Nat → Rat) :
+    ∃ st, maxminSolve S 0 (nv + 1) val0 = some st ∧
+      ∀ c ∈ S.active, ∀ e ∈ (S.cnst c).elems, 0 < e.2 → st.value e.1 = Spec.alloc S e.1 := by
+  obtain ⟨st, hs, _⟩ := C15.maxmin_total_feasible S hwf nv hnv val0
+  exact ⟨st, hs, (maxmin_unique_shared S hwf hwv hsh val0 (nv + 1) st hs).2.2⟩
+
+/-- non-vacuity: `exSh` (two summing constraints, one bounded variable) meets all hypotheses; reference = (1, 7, 2),
+the values the model returns (example above) -/
+example : (Spec.alloc exSh 0, Spec.alloc exSh 1, Spec.alloc exSh 2) = (1, 7, 2) := by decide +kernel
+
+example : FairAlloc exSh (Spec.alloc exSh) :=
+  Spec.alloc_fair exSh exSh_wf exSh_wfv
+    (by intro c hc; simp [exSh] at hc; rcases hc with rfl | rfl <;> simp [exSh])
 
 /-! ### BMF: predicate ⇒ property -/
 
